@@ -83,6 +83,19 @@ def _task(task):
         for rep in range(task.get('reps', 1)):
             attempt(CL_NORM, "X -> log2(1+1e6*X/rowsum) written and declared 'log2CPM'",
                     lambda: _diff_blobs(base_raw, run_q(L, genes, 'log2CPM', cfg1), 1e-6), cfg1) if rep == 0 else None
+            if rep == 0:
+                # raw counts stored in a narrow integer type (what the package's own validator writes):
+                # every count fits the type, the total of a deep cell does not
+                Xi = np.round(X).astype(np.int64)
+                fac = np.ceil(70000.0 / np.maximum(Xi.sum(axis=1, keepdims=True), 1)).astype(np.int64)
+                Xbig = np.minimum(Xi * fac, 60000)
+                if Xbig.sum(axis=1).max() > 65535:
+                    attempt(CL_NORM,
+                            dict(storage='raw counts stored as uint16 with cell totals above 65535',
+                                 max_cell_total=int(Xbig.sum(axis=1).max())),
+                            lambda: _diff_blobs(run_q(Xbig.astype(np.uint16), genes, 'raw', cfg1),
+                                                run_q(fx.to_log2cpm(Xbig.astype(float)), genes, 'log2CPM', cfg1),
+                                                1e-6), cfg1)
             s = np.exp(rng.uniform(np.log(1e-3), np.log(1e4), size=(X.shape[0], 1)))
             s[0, 0] = 0.37
             s[-1, 0] = 1000.0
